@@ -73,4 +73,50 @@ PROPS = {
   "level_note": "Trusted as C04; math.Pow(d,2) modelled as d*d (identical unless the square is subnormal; generator keeps |d| >= 2^-500). Known finding F20 (warm-up 0) replayed.",
   "technique": "Coq structural/real-number theorems over the binary64 model + bit-exact differential replay with reset twins",
  },
+ "C01": {
+  "tests": ["TestC01", "TestC01Stress"],
+  "rule": "random acquire/release/SetLimit (0 and negative values included) sequences on the simple and precise strategies, compared step by step with the model; every TryAcquire "
+          "is checked against the gate rule; plus a 16-goroutine stress run with a flipping limit and a harness-side holder counter; non-trivial = a distinct (busy, limit, decision)",
+  "level_text": "C01_no_over_admission and C01_gate_decision are proved on a transition system with one label per atomic step of Acquire/TryAcquire/Release/SetLimit, for any number of "
+                "threads, any interleaving and arbitrary limit updates (invariant by induction over reachable states); C01_precise_direct covers the precise strategy used directly.",
+  "level_note": "Trusted: Coq kernel; the atomicity granularity of the transition system (critical section of DefaultLimiter.mu, atomic ops of SimpleStrategy) is a modelling assumption "
+                "cross-checked by the lock-map facts of C17's scanner; sequential behaviour tied to strategy/*.go by replay.",
+  "technique": "Coq inductive invariant over an unbounded-thread transition system + differential replay + stress oracle",
+  "traces_from": ["C01"],
+ },
+ "C02": {
+  "tests": ["TestC02"],
+  "rule": "random histories of acquires, completions with the three outcomes, scripted estimate changes, partition adds/removes and virtual-time steps through the default limiter over "
+          "all four strategy kinds, ending with a full drain and re-acquisition of the full limit; after every op gauge = busy = outstanding listeners; non-trivial = a completed drain",
+  "level_text": "C02_init/_acquire/_complete: LInv (gauge = strategy busy = outstanding listeners) is an invariant of the default limiter over any strategy, any outcome, any window "
+                "closing; refusals change nothing. C02_partition_bins: bins exact in every reachable state. Blocking/queue wrappers: see C10/C12 (transition systems).",
+  "level_note": "Trusted as C01; sequential model of limiter/default.go (time.Now as explicit argument, synctest virtual clock in the harness).",
+  "technique": "Coq invariant over limiter + strategy models + differential replay with drain oracle",
+ },
+ "C03": {
+  "tests": ["TestC03"],
+  "rule": "random partition sets (fractions from a grid and random doubles, sums <= 1, overlapping predicates), key streams including unknown keys, interleaved releases, SetLimit (0, negative, "
+          "repeats), dynamic add/remove; after every op all counts, limits and shares are compared; non-trivial = a distinct admission situation (total busy/limit, bin busy/limit, match, decision)",
+  "level_text": "C03_admit_iff (exact admission rule incl. first-match, unknown and no-match), C03_reachable (shares of the current total, exact bins, sum) for every operation sequence, "
+                "C03_guarantee, C03_borrow_cap.",
+  "level_note": "Trusted: the share is stated with the binary64 product the code computes; request-to-partition mapping abstracted as key/tag equality (harness uses the bundled string matchers).",
+  "technique": "Coq inductive invariant over all operation sequences + differential replay",
+ },
+ "C05": {
+  "tests": ["TestC05"],
+  "rule": "default limiter over all four strategy kinds with a scripted limit double (estimates 0, negative, repeated, large), random histories plus closing bursts that fill and close windows "
+          "at instants around the period end; after every forwarded window the strategy limit and every share are checked; non-trivial = a distinct closed window",
+  "level_text": "C05_sync_init, C05_sync_update (same step as the forwarded sample), C05_shares_follow (SetLimit keeps the invariant 'every live bin has the share of the current total').",
+  "level_note": "Trusted as C02. Limits changed from outside (SettableLimit.SetLimit) are outside the statement and the model.",
+  "technique": "Coq theorems over limiter + strategy models + differential replay",
+ },
+ "C09": {
+  "tests": ["TestC09", "TestC09Windowed"],
+  "rule": "completion histories with all outcomes, durations around the RTT threshold, end times at next-1/next/next+1, drops at every position of a window; every call the limit double "
+          "receives is compared with the fold of the qualifying completions since the previous update; non-trivial = a distinct closed window",
+  "level_text": "C09_default_windows: refinement of the incremental window to the list-based spec for every completion list (rtt in [0,2^62)); C09_limiter_step ties it to the limiter model. "
+                "The windowed limit is decided by replay (model in Limits.v) + oracle.",
+  "level_note": "Trusted as C02.",
+  "technique": "Coq refinement proof (incremental fold vs list spec) + differential replay",
+ },
 }
